@@ -29,6 +29,7 @@ type Config struct {
 	TimerHorizonNs  int64
 	RaceCheck       bool
 	StopOnViolation bool
+	NoStateHash     bool
 }
 
 type Engine struct {
@@ -47,6 +48,8 @@ type Engine struct {
 	inconMu sync.Mutex
 	incon   map[string]bool
 
+	visited  *visitedSet
+	hashGlobals []*ssa.Global
 	fnInfos  sync.Map
 	fnMetas  sync.Map
 	constVal sync.Map
@@ -166,6 +169,7 @@ type EntrySpec struct {
 	TimeoutS    int      `json:"timeout_s"`
 	RaceCheck   bool     `json:"race_check"`
 	NoNative    bool     `json:"no_native"`
+	NoStateHash bool     `json:"no_state_hash"`
 	MaxDecisions int     `json:"max_decisions"`
 }
 
@@ -227,6 +231,20 @@ func (eng *Engine) load(spec *CheckSpec) error {
 	eng.pkgs = map[string]*ssa.Package{}
 	for _, p := range prog.AllPackages() {
 		eng.pkgs[p.Pkg.Path()] = p
+	}
+	for _, p := range prog.AllPackages() {
+		if strings.HasPrefix(p.Pkg.Path(), "github.com/samsarahq/thunder") {
+			var names []string
+			for n, m := range p.Members {
+				if _, ok := m.(*ssa.Global); ok {
+					names = append(names, n)
+				}
+			}
+			sort.Strings(names)
+			for _, n := range names {
+				eng.hashGlobals = append(eng.hashGlobals, p.Members[n].(*ssa.Global))
+			}
+		}
 	}
 	// well-known types
 	eng.errorIface = types.Universe.Lookup("error").Type().Underlying().(*types.Interface)
